@@ -117,6 +117,129 @@ pub fn set_cipher_key(id: usize, k: &[u8; 32]) {
     unsafe { CKEY[id] = *k }
 }
 
+// ----------------------------------------------------------------------------- oracle / length-only
+
+/// Call log and preset verdicts of the oracle cipher objects.
+pub static mut O_ENC_CALLS: [u32; NC] = [0; NC];
+pub static mut O_ENC_NONCE: [u64; NC] = [0; NC];
+pub static mut O_ENC_ADLEN: [usize; NC] = [0; NC];
+pub static mut O_ENC_PTLEN: [usize; NC] = [0; NC];
+pub static mut O_DEC_CALLS: [u32; NC] = [0; NC];
+pub static mut O_DEC_NONCE: [u64; NC] = [0; NC];
+pub static mut O_DEC_ADLEN: [usize; NC] = [0; NC];
+pub static mut O_DEC_CTLEN: [usize; NC] = [0; NC];
+/// verdict the next `decrypt` of object ID returns (the harness makes it symbolic)
+pub static mut O_DEC_VERDICT: [bool; NC] = [true; NC];
+/// set when any encrypt/decrypt of object ID was given the reserved nonce 2^64-1
+pub static mut O_SAW_MAX: [bool; NC] = [false; NC];
+/// set when a call violated the buffer contract every built-in backend has (natively: slice-index panic)
+pub static mut O_CONTRACT_BROKEN: bool = false;
+/// when false the oracle moves no data at all (pure length-only stub, used with 66000-byte buffers)
+pub static mut O_COPY: bool = true;
+
+/// Oracle AEAD: `encrypt` copies the plaintext and appends a marker tag, `decrypt` returns the preset verdict
+/// and, when accepting, copies ciphertext-minus-tag. Both are O(1) in symex (slice copies, no byte loops), record
+/// their arguments, and check the buffer contract of the built-in backends:
+/// encrypt needs out.len() >= pt.len()+16, decrypt needs ct.len() >= 16 and out.len() >= ct.len()-16.
+pub struct OCipher<const ID: usize>;
+
+impl<const ID: usize> Cipher for OCipher<ID> {
+    fn name(&self) -> &'static str {
+        "ORACLEAEAD"
+    }
+    fn set(&mut self, key: &[u8; 32]) {
+        unsafe {
+            CKEY[ID] = *key;
+            CSETS[ID] = CSETS[ID].wrapping_add(1);
+        }
+    }
+    fn encrypt(&self, nonce: u64, ad: &[u8], pt: &[u8], out: &mut [u8]) -> usize {
+        unsafe {
+            O_ENC_CALLS[ID] = O_ENC_CALLS[ID].wrapping_add(1);
+            O_ENC_NONCE[ID] = nonce;
+            O_ENC_ADLEN[ID] = ad.len();
+            O_ENC_PTLEN[ID] = pt.len();
+            if nonce == u64::MAX {
+                O_SAW_MAX[ID] = true;
+            }
+            if out.len() < pt.len() + 16 {
+                O_CONTRACT_BROKEN = true;
+                assert!(false, "Cipher::encrypt called with an output buffer smaller than plaintext + 16-byte tag (built-in backends panic here)");
+                return 0;
+            }
+        }
+        let n = pt.len();
+        if unsafe { O_COPY } {
+            out[..n].copy_from_slice(pt);
+            out[n..n + 16].copy_from_slice(&[0xA5u8; 16]);
+        }
+        n + 16
+    }
+    fn decrypt(&self, nonce: u64, ad: &[u8], ct: &[u8], out: &mut [u8]) -> Result<usize, Error> {
+        unsafe {
+            O_DEC_CALLS[ID] = O_DEC_CALLS[ID].wrapping_add(1);
+            O_DEC_NONCE[ID] = nonce;
+            O_DEC_ADLEN[ID] = ad.len();
+            O_DEC_CTLEN[ID] = ct.len();
+            if nonce == u64::MAX {
+                O_SAW_MAX[ID] = true;
+            }
+            if ct.len() < 16 || out.len() < ct.len() - 16 {
+                O_CONTRACT_BROKEN = true;
+                assert!(false, "Cipher::decrypt called with a ciphertext shorter than the tag or an output buffer smaller than the plaintext (built-in backends panic here)");
+                return Err(Error::Decrypt);
+            }
+            if !O_DEC_VERDICT[ID] {
+                return Err(Error::Decrypt);
+            }
+        }
+        let n = ct.len() - 16;
+        if unsafe { O_COPY } {
+            out[..n].copy_from_slice(&ct[..n]);
+        }
+        Ok(n)
+    }
+}
+
+/// Length-only hash: O(1) in data length (absorbs only lengths).
+pub struct LHash<const HL: usize, const ID: usize>;
+
+impl<const HL: usize, const ID: usize> Hash for LHash<HL, ID> {
+    fn name(&self) -> &'static str {
+        "LENHASH"
+    }
+    fn block_len(&self) -> usize {
+        64
+    }
+    fn hash_len(&self) -> usize {
+        HL
+    }
+    fn reset(&mut self) {
+        unsafe { HST[ID] = toy::H_INIT }
+    }
+    fn input(&mut self, data: &[u8]) {
+        unsafe {
+            // lengths only: reading even one byte back out of a 66000-byte buffer that was just filled by a
+            // symbolic-length copy makes CBMC materialise the whole copy (measured: > 12 GB)
+            HST[ID].len = HST[ID].len.wrapping_add(data.len() as u32);
+            HST[ID].acc = HST[ID].acc.rotate_left(9) ^ (data.len() as u64);
+        }
+    }
+    fn result(&mut self, out: &mut [u8]) {
+        unsafe { toy::h_finish(&HST[ID], HL, out) }
+    }
+    fn hkdf(&mut self, ck: &[u8], ikm: &[u8], outputs: usize, o1: &mut [u8], o2: &mut [u8], o3: &mut [u8]) {
+        let st = toy::HState { acc: (ck.len() as u64) << 8 | (ikm.len() as u64), len: outputs as u32 };
+        toy::h_finish(&st, HL, o1);
+        if outputs >= 2 {
+            toy::h_finish(&st, HL, o2);
+        }
+        if outputs >= 3 {
+            toy::h_finish(&st, HL, o3);
+        }
+    }
+}
+
 // -------------------------------------------------------------------------------------------------- dh
 
 pub static mut DPRIV: [[u8; DHMAX]; ND] = [[0u8; DHMAX]; ND];
@@ -229,5 +352,17 @@ pub fn reset_all() {
         RNG_POOL = [[0u8; DHMAX]; RNG_SLOTS];
         RNG_DRAWS = 0;
         RNG_BYTES = 0;
+        O_ENC_CALLS = [0; NC];
+        O_ENC_NONCE = [0; NC];
+        O_ENC_ADLEN = [0; NC];
+        O_ENC_PTLEN = [0; NC];
+        O_DEC_CALLS = [0; NC];
+        O_DEC_NONCE = [0; NC];
+        O_DEC_ADLEN = [0; NC];
+        O_DEC_CTLEN = [0; NC];
+        O_DEC_VERDICT = [true; NC];
+        O_SAW_MAX = [false; NC];
+        O_CONTRACT_BROKEN = false;
+        O_COPY = true;
     }
 }
